@@ -299,6 +299,17 @@ def gen_history(rng, cfg=None):
     if twins and rng.random() < 0.6:
         rnd = rng.choice(rounds)
         rnd['edits'] = list(rnd['edits']) + [{'m': 'delete', 'p': rng.choice(twins)}]
+    if manifests and rng.random() < cfg.get('p_top_second_manifest', 0.05) and not any(t['p'].startswith('Manifest.') for t in tree) \
+            and not any(m['p'] != 'Manifest' and os.path.dirname(m['p']) == '' for m in manifests):
+        # a second, parseable file with a Manifest name beside the top-level Manifest, and a forced save whose watermark
+        # lies above its size (d4e03d5: such a file used to be renamed onto the top-level Manifest)
+        tree = tree + [{'p': 'Manifest.' + rng.choice(['gz', 'gz', 'bz2', 'xz']), 'k': 'file', 'c': ''}]
+        u_ = rng.choice(rounds)['update']
+        if not u_.get('reuse') and 'wm_of' not in u_:
+            u_['watermark'] = 100000
+            u_['force'] = True
+            u_.pop('path', None)
+            u_.pop('path2', None)
     if manifests and rng.random() < cfg.get('p_variant_sibling', 0.1):
         # an ordinary data file whose name is a sub-Manifest's name plus a compression suffix that no round of this
         # history uses (so that no save ever wants that name): it is nobody's Manifest and must stay where it is
